@@ -19,9 +19,12 @@ type ProgSpec struct {
 	Main         string            `json:"main"`
 	TrimBlocks   bool              `json:"trim_blocks"`
 	LStripBlocks bool              `json:"lstrip_blocks"`
-	Blocks       []string          `json:"blocks,omitempty"`
-	Off          []string          `json:"constructs_off,omitempty"`
-	Tags         []string          `json:"tags_used"`
+	// OptsOnTemplate: the caller sets TrimBlocks/LStripBlocks on the compiled template
+	// (tpl.Options, "before calling Execute") instead of on the set
+	OptsOnTemplate bool     `json:"options_set_on_template,omitempty"`
+	Blocks         []string `json:"blocks,omitempty"`
+	Off            []string `json:"constructs_off,omitempty"`
+	Tags           []string `json:"tags_used"`
 }
 
 var textPool = []string{"A", " b ", "\n", "\n  ", "<p>", "</p> <b>", "ü€", "x&y", "  \n\n", "'q'", "T\n", "\t", "end.", "<i> </i>", "0", "\n\n", "\n\n\nX", "\n \t"}
@@ -547,6 +550,7 @@ func GenProgram(g *Tape, size int) *ProgSpec {
 	}
 	sp.TrimBlocks = g.Draw(3) == 1
 	sp.LStripBlocks = g.Draw(4) == 1
+	sp.OptsOnTemplate = (sp.TrimBlocks || sp.LStripBlocks) && g.Draw(3) == 0
 	sp.Files["raw.txt"] = "RAW {{ not parsed }}\n"
 	sp.Files["macros.tpl"] = `{% macro m_a(x) export %}[{{ x }}]{% endmacro %}` +
 		`{% macro m_b(x, y="d") export %}({{ x }}{{ y() }}{{ y }}{% if x %}{{ x|upper }}{% endif %}){% endmacro %}`
